@@ -64,6 +64,7 @@ fn mentions_own_death(input: &Input, own: &VId) -> bool {
 pub fn c08(seed: u64, budget: u64) -> FOut {
     let mut out = FOut::default();
     out.rule = "seeded single-instance histories (300 calls: structured and corrupted datagrams over a small identity/incarnation domain with address conflicts, own timers in any order, every API call incl. change_identity / leave / reuse_down_identity) on the real crate; a set S is maintained from MemberUp / MemberDown / Rename(a,b: replace a by b if present) alone and after EVERY call S must equal the ids of Foca::iter_members() and |S| = num_members(); MemberUp for a member in S / MemberDown for one not in S is a hit; a mode {Idle,Active,Defunct} is maintained from Active / Idle / Defunct / Rejoin (and the API calls that change identity) alone: Active only from Idle with S non-empty at that point of the effect sequence, Idle only from Active with S empty, at the end of every call Active implies S non-empty and the mode agrees with the hook's connection_state; Defunct / Rejoin only in calls whose input mentions the own identity as Suspect/Down, is a TurnUndead or is leave_cluster, and always (Rejoin or Defunct) when a member held Down sends a TurnUndead to the current identity - also when already defunct; Rejoin(n) iff the identity changed in a call other than change_identity, n is the new identity and wins against the old one; after Defunct no Active until an identity change; a table (renew kinds x own incarnation x Suspect at own / MAX-1 / MAX or Down told about the own identity): irrefutable news ends in exactly one Defunct (identity kept, defunct) or one Rejoin(n) (n the new, winning identity), refutable news in neither; a twin instance with the same seed driven through AccumulatingRuntime must return the same results and yield the same sends, timers and notifications in the same order (per queue) after every call. distinct = distinct (input kind, notification multiset) pairs".into();
+    crate::falsify::stale_turn_undead(seed, &mut out, "C08:rejoin-or-defunct-without-being-told-down");
     let mut total_calls = 0u64;
     let mut note_calls = 0u64;
     let mut idle_nonempty = 0u64;
